@@ -9,6 +9,7 @@ import (
 	"fmt"
 	"reflect"
 	"sort"
+	"strconv"
 	"strings"
 	"time"
 
@@ -87,14 +88,14 @@ func (g *gen) rejectedRow(f *sfeed, name string) (srow, string) {
 	case "calendar.txt":
 		r["service_id"] = "REJ-SV"
 		if g.coin(0.4) {
-			r[g.pick([]string{"start_date", "end_date"})] = g.pick([]string{"2023-01-01", "20231301", "x", "2023010"})
+			r[g.pick([]string{"start_date", "end_date"})] = g.pick([]string{"2023-01-01", "20231301", "x", "2023010", "19000229", "21000229", "20230229", "20230431"})
 			return r, "unparseable date"
 		}
 		return blank(g.pick([]string{"service_id", "monday", "sunday", "start_date", "end_date"}))
 	case "calendar_dates.txt":
 		r["service_id"] = "REJ-SV2"
 		if g.coin(0.4) {
-			r["date"] = g.pick([]string{"20230230", "x", "2023/01/01"})
+			r["date"] = g.pick([]string{"20230230", "x", "2023/01/01", "19000229", "21000229", "20230229", "20230931"})
 			return r, "unparseable date"
 		}
 		return blank(g.pick([]string{"service_id", "date", "exception_type"}))
@@ -104,7 +105,7 @@ func (g *gen) rejectedRow(f *sfeed, name string) (srow, string) {
 			r[g.pick([]string{"shape_pt_lat", "shape_pt_lon"})] = g.pick([]string{"north", "1,5", "--1"})
 			return r, "unparseable coordinate"
 		case 1:
-			r["shape_pt_sequence"] = g.pick([]string{"one", "1.5", "99999999999"})
+			r["shape_pt_sequence"] = g.pick([]string{"one", "1.5", "99999999999", "0x1F", "0b101", "0o17", "1_000", "1e3", " 5", "5 "})
 			return r, "unparseable sequence"
 		}
 		return blank(g.pick([]string{"shape_id", "shape_pt_lat", "shape_pt_lon", "shape_pt_sequence"}))
@@ -124,7 +125,7 @@ func (g *gen) rejectedRow(f *sfeed, name string) (srow, string) {
 			r["headway_secs"] = g.pick([]string{"fast", "1.5"})
 			return r, "unparseable headway"
 		case 2:
-			r[g.pick([]string{"start_time", "end_time"})] = g.pick([]string{"noon", "1:2:3:4", "12h00"})
+			r[g.pick([]string{"start_time", "end_time"})] = g.pick([]string{"noon", "1:2:3:4", "12h00", "10:00:00\u00a1", "\xa010:00:00", "10:00:00\xc2", "\u200b10:00:00", "10:00:00\ufeff"})
 			return r, "unparseable time"
 		}
 		return blank(g.pick([]string{"trip_id", "start_time", "end_time", "headway_secs"}))
@@ -140,7 +141,7 @@ func (g *gen) rejectedRow(f *sfeed, name string) (srow, string) {
 			r["stop_sequence"] = g.pick([]string{"first", "1.0", ""})
 			return r, "unparseable sequence"
 		case 3:
-			r["arrival_time"], r["departure_time"] = g.pick([]string{"", "soon", "1:2:3:4"}), g.pick([]string{"", "late"})
+			r["arrival_time"], r["departure_time"] = g.pick([]string{"", "soon", "1:2:3:4", "10:00:00\u00a1", "\xa010:00:00", "\u200b10:00:00"}), g.pick([]string{"", "late"})
 			return r, "no parseable time"
 		}
 		return blank(g.pick([]string{"trip_id", "stop_id", "stop_sequence"}))
@@ -171,7 +172,11 @@ func oracleC03(s *gtfs.Static, f *sfeed) string {
 	}
 	stIdx := map[string]bool{}
 	for _, r := range rowsOf("stop_times.txt") {
-		stIdx[r["trip_id"]+"\x00"+r["stop_id"]+"\x00"+r["stop_sequence"]] = true
+		seq := r["stop_sequence"] // the row names a number, in whatever decimal spelling ("007", "+7")
+		if n, err := strconv.Atoi(seq); err == nil {
+			seq = fmt.Sprint(n)
+		}
+		stIdx[r["trip_id"]+"\x00"+r["stop_id"]+"\x00"+seq] = true
 	}
 	for i := range s.Routes {
 		r := &s.Routes[i]
@@ -451,6 +456,49 @@ func engineStatic(which string) engineFn {
 						addCase(inherit, ms, r.s, zones)
 					}
 				}
+				// "within each trip the stop times are in ascending stop_sequence" holds of whatever the parser returns, also for
+				// a feed that lists a trip id twice (the rows of stop_times.txt in trips.txt order, as exporters write them)
+				if tp := f.table("trips.txt"); len(tp.rows) > 1 && g.coin(0.35) {
+					dup := f.clone()
+					dt := dup.table("trips.txt")
+					src := dt.rows[g.r.Intn(len(dt.rows))]
+					cp := srow{}
+					for kk, vv := range src {
+						cp[kk] = vv
+					}
+					cp["trip_headsign"] = "second listing"
+					pos := g.r.Intn(len(dt.rows) + 1)
+					dt.rows = append(dt.rows[:pos:pos], append([]srow{cp}, dt.rows[pos:]...)...)
+					if st := dup.table("stop_times.txt"); st != nil {
+						order := map[string]int{}
+						for i, r := range dt.rows {
+							if _, ok := order[r["trip_id"]]; !ok {
+								order[r["trip_id"]] = i
+							}
+						}
+						sort.SliceStable(st.rows, func(a, b int) bool { return order[st.rows[a]["trip_id"]] < order[st.rows[b]["trip_id"]] })
+						if g.coin(0.7) { // within each group: descending or shuffled sequence numbers
+							for a, b := 0, len(st.rows)-1; a < b; a, b = a+1, b-1 {
+								st.rows[a], st.rows[b] = st.rows[b], st.rows[a]
+							}
+							sort.SliceStable(st.rows, func(a, b int) bool { return order[st.rows[a]["trip_id"]] < order[st.rows[b]["trip_id"]] })
+						}
+					}
+					md := renderFeed(nil, canonicalPresentation(dup), dup)
+					if rd := runStatic(md, false, inherit); rd.err == nil && !rd.cr.panicked && !rd.cr.hung {
+						ctx.evaluations++
+						for ti := range rd.s.Trips {
+							sts := rd.s.Trips[ti].StopTimes
+							for k := 1; k < len(sts); k++ {
+								if sts[k-1].StopSequence > sts[k].StopSequence {
+									ctx.violate("c08-sorted", fmt.Sprintf("trip %d (%q): stop times are not in ascending stop_sequence (%d before %d)", ti, rd.s.Trips[ti].ID, sts[k-1].StopSequence, sts[k].StopSequence), map[string]any{"members": describeMembers(md)})
+									break
+								}
+							}
+						}
+						addCase(inherit, md, rd.s, feedZones(dup))
+					}
+				}
 				// order clauses themselves (file order kept, sequences sorted, shapes by id)
 				if d := diffLines(baseDump, denote(f, inherit)); d != "" {
 					ctx.violate("c08-order", "collection order is not file order / sorted by sequence / shapes by id: "+d, replay)
@@ -459,8 +507,8 @@ func engineStatic(which string) engineFn {
 				ff := f.clone()
 				type ins struct {
 					file, cause string
-					row        srow
-					pos        int
+					row         srow
+					pos         int
 				}
 				var inserted []ins
 				for k := 1 + g.r.Intn(8); k > 0; k-- {
@@ -489,6 +537,16 @@ func engineStatic(which string) engineFn {
 					stats["inserted:"+cause] += len(ins1)
 				}
 				p := canonicalPresentation(ff)
+				if g.coin(0.4) {
+					// unknown extra columns, some of them sharing one name (",x_dup,x_dup" or two empty header cells): a row's
+					// cell contents are all its cells, however the columns are called
+					for k, nm := 1+g.r.Intn(3), g.pick([]string{"x_dup", "", "agency_phone2"}); k > 0; k-- {
+						cols := p.colOrder["agency.txt"]
+						pos := g.r.Intn(len(cols) + 1)
+						p.colOrder["agency.txt"] = append(cols[:pos:pos], append([]string{nm}, cols[pos:]...)...)
+						p.extraCell[nm] = g.pick([]string{"junk", "", "7"})
+					}
+				}
 				ms := renderFeed(nil, p, ff)
 				ref := runStatic(renderFeed(nil, canonicalPresentation(f), f), false, inherit)
 				r := runStatic(ms, false, inherit)
@@ -513,7 +571,11 @@ func engineStatic(which string) engineFn {
 					}
 					var cells []string
 					for _, c := range p.colOrder["agency.txt"] {
-						cells = append(cells, tA.rows[w.RowNumber-1][c])
+						if v, ok := tA.rows[w.RowNumber-1][c]; ok {
+							cells = append(cells, v)
+						} else {
+							cells = append(cells, p.extraCell[c])
+						}
 					}
 					if !reflect.DeepEqual(cells, w.RowContent) {
 						ctx.violate("c09-warning", fmt.Sprintf("warning for row %d carries cells %q, the row's cells are %q", w.RowNumber, w.RowContent, cells), rp)
@@ -662,6 +724,19 @@ func engineStatic(which string) engineFn {
 				for _, t := range ff.table("trips.txt").rows {
 					svcIDs = append(svcIDs, t["service_id"])
 				}
+				if g.coin(0.2) {
+					// dates are dates whatever the year: a range or a first exception on 0001-01-01 (in UTC the zero value of
+					// Go's time.Time) is a date like any other
+					for _, a := range ff.table("agency.txt").rows {
+						a["agency_timezone"] = "UTC"
+					}
+					if cal := ff.table("calendar.txt"); cal != nil && len(cal.rows) > 0 && g.coin(0.6) {
+						cal.rows[0]["start_date"] = "00010101"
+						cd.rows = append(cd.rows, srow{"service_id": cal.rows[0]["service_id"], "date": g.pick([]string{"00010101", "00010102", "20230615", "99991231"}), "exception_type": g.pick([]string{"1", "2"})})
+					} else {
+						cd.rows = append([]srow{{"service_id": "YEAR-ONE", "date": "00010101", "exception_type": "1"}, {"service_id": "YEAR-ONE", "date": g.pick([]string{"00010102", "20230615"}), "exception_type": g.pick([]string{"1", "2"})}}, cd.rows...)
+					}
+				}
 				for k := g.r.Intn(25); k > 0; k-- {
 					cd.rows = append(cd.rows, srow{"service_id": g.pick(svcIDs), "date": g.date(), "exception_type": g.pick([]string{"1", "2"})})
 				}
@@ -673,7 +748,7 @@ func engineStatic(which string) engineFn {
 				}
 				// well-formed digits that name no day: such rows are rejected (neither create nor stretch nor add)
 				imp := ff.clone()
-				impossible := []string{"20230229", "20230431", "20230931", "20231301", "20230100", "20230132", "00000000", "20240230"}
+				impossible := []string{"20230229", "20230431", "20230931", "20231301", "20230100", "20230132", "00000000", "20240230", "19000229", "21000229", "22000229", "01000229", "20230000", "20231232"}
 				ic := imp.table("calendar_dates.txt")
 				for k := 1 + g.r.Intn(4); k > 0; k-- {
 					row := srow{"service_id": g.pick(append(svcIDs, "GHOST")), "date": g.pick(impossible), "exception_type": g.pick([]string{"1", "2"})}
